@@ -165,6 +165,20 @@ pub fn build(e: &mut Ent, f: &Force) -> (StepCase, Tag) {
         }
     }
     let code = encode(&insn);
+    let mut frame = frame;
+    // rare class: the call's stack frame overlaps the call instruction itself (the operand words must be
+    // fetched before the frame is written)
+    if matches!(kind, Kind::Bsr8 | Kind::Bsr16 | Kind::JsrReg | Kind::JsrAbs | Kind::JsrInd) && e.chance(1, 12) {
+        let len = code.len() as u32;
+        let f = (pc + len).wrapping_sub(2 * e.below(len / 2 + 3));
+        er[7] = (f.wrapping_add(4) & MASK24) | (er[7] & 0xff00_0000);
+        frame = Some(f & MASK24);
+        if let Insn::Jsr(JTarget::Reg(r)) = insn {
+            if r == 7 {
+                er[7] = (er[7] & 0xff00_0000) | ((pc + 0x100) & MASK24);
+            }
+        }
+    }
     let bus = e.bus_cfg();
     (StepCase { code, pc, er, ccr, patches, bus, irq: None }, Tag { kind, insn, taken, sp_upper, target, frame })
 }
@@ -184,6 +198,11 @@ fn classify(case: &StepCase, j: &Judged, t: &Tag, stats: &mut Stats) {
             true
         }
     };
+    if let Some(f) = t.frame {
+        if f < case.pc + case.code.len() as u32 && case.pc < f + 4 {
+            stats.class("stack frame overlaps the call instruction itself");
+        }
+    }
     if nt {
         let detail = match t.insn {
             Insn::Bcc { cond, disp, .. } => (cond as u32, disp as u32),
